@@ -267,13 +267,18 @@ func (e *env) removeWithFlights(name string) string {
 	ok := false
 	if t != nil {
 		sent, ok = t.sentinelOf()
+		ok = ok && sent.has("Hold") && sent.has("HoldB") // a bare sentinel offers nothing to keep in flight
 	}
 	if !ok {
 		return e.remove(name)
 	}
 	before := t.held.Load()
 	fs := e.openFlights(sent)
-	deadline := time.Now().Add(inflightBound)
+	holdBound := inflightBound
+	if exhausted.Load() >= 4 {
+		holdBound /= 4 // a tree on which nothing settles: the verdict is decided, do not spend the bound on every Remove
+	}
+	deadline := time.Now().Add(holdBound)
 	for t.held.Load() < before+int32(len(fs)) && time.Now().Before(deadline) {
 		time.Sleep(time.Millisecond)
 	}
@@ -288,6 +293,10 @@ func (e *env) removeWithFlights(name string) string {
 	allHeld := t.held.Load() >= before+int32(len(fs))
 	res := e.remove(name)
 	end := time.Now().Add(inflightBound)
+	if !allHeld {
+		end = time.Now() // the calls never were in flight (reported as N): nothing to wait for
+		exhausted.Add(1)
+	}
 	var parts []string
 	for _, f := range fs {
 		state := "E"
@@ -304,10 +313,11 @@ func (e *env) removeWithFlights(name string) string {
 	for _, f := range fs {
 		f.kill()
 	}
+	cleanup := time.After(inflightBound)
 	for _, f := range fs {
 		select {
 		case <-f.done:
-		case <-time.After(inflightBound):
+		case <-cleanup:
 		}
 	}
 	return res + "~" + strings.Join(parts, ";")
